@@ -6,7 +6,7 @@ rows = []
 for f in sorted(glob.glob(V + '/seeded/*/meta.json')):
     d = json.load(open(f))
     det = d.get('detection', {})
-    caught = ', '.join('%s (%d VIOLATION lines, %ds)' % (p, det[p]['violations'], det[p]['wall_s']) for p in sorted(det) if det[p]['rc'] == 1 and det[p]['violations'] > 0) or 'MISSED'
+    caught = ", ".join(sorted(set(["%s (%d VIOLATION lines, %ds)" % (p, det[p]["violations"], det[p]["wall_s"]) for p in sorted(det) if det[p]["rc"] == 1 and det[p]["violations"] > 0] + ["%s (%d VIOLATION lines, targeted re-run)" % (p, v["violations"]) for p, v in sorted(d.get("detection_targeted", {}).items()) if v["rc"] == 1 and v["violations"] > 0 and not (p in det and det[p]["rc"] == 1 and det[p]["violations"] > 0)]))) or "MISSED"
     what = (d.get('what_breaks') or '').replace('\n', ' ').replace('|', '/')
     what = what[:170] + ('...' if len(what) > 170 else '')
     rows.append('| %s | %s | %s | %s |' % (d['seed'], 'yes' if d.get('confirmed') else 'NO', what, caught))
